@@ -192,8 +192,25 @@ C0203_Step(pre, ev, post) ==
 
 (* RENAME moves the whole subtree with every message, UID and flag intact and
    leaves nothing under the old name *)
+(* RENAME INBOX x (RFC 3501 6.3.5): every message of INBOX moves to the new
+   mailbox x, in order, with its flags and internal date; INBOX stays and is
+   empty.  (UIDs are those of the new mailbox.) *)
+C03_RenameInbox(pre, ev, post) ==
+    IF ev.act = "Rename" /\ ev.status = "OK" /\ ev.src \in {"inbox", "INBOX"}
+       /\ Has(pre, "inbox") /\ Live(pre, "inbox") /\ ~Has(pre, ev.mbox)
+    THEN (IF ~Has(post, "inbox") \/ ~Live(post, "inbox") \/ post.mb["inbox"].msgs # <<>>
+          THEN {"C03.RenameInboxLeavesItEmpty"} ELSE {})
+         \cup (IF ~Has(post, ev.mbox) \/ ~Live(post, ev.mbox) THEN {"C03.RenameLostMailbox"}
+               ELSE LET a == pre.mb["inbox"].msgs b == post.mb[ev.mbox].msgs IN
+                    IF Len(a) # Len(b)
+                       \/ \E i \in DOMAIN a \cap DOMAIN b :
+                              a[i].id # b[i].id \/ a[i].d # b[i].d \/ Visible(a[i].fl) # Visible(b[i].fl)
+                    THEN {"C03.RenameInboxKeepsMessages"} ELSE {})
+    ELSE {}
+
 C03_Rename(pre, ev, post) ==
-    IF ev.act = "Rename" /\ ev.status = "OK" /\ ev.src # "inbox" /\ ev.src # "INBOX" THEN
+    IF ev.act = "Rename" /\ ev.status = "OK" /\ ev.src \in {"inbox", "INBOX"} THEN C03_RenameInbox(pre, ev, post)
+    ELSE IF ev.act = "Rename" /\ ev.status = "OK" /\ ev.src # "inbox" /\ ev.src # "INBOX" THEN
         UNION {
             LET o == ev.renames[i][1] n == ev.renames[i][2] IN
             IF ~Live(pre, o) THEN {}
